@@ -539,6 +539,14 @@ pub(crate) fn run_with_crash(
                 reopen_panic = Some(p);
                 break;
             }
+            // a user call that was interrupted by the crash is issued again after the restart
+            if let Some(d) = crashed_at_step.and_then(|s| map.get(&s)) {
+                let r3 = panics::catch(|| apply_dev(sc, &mut sim, d));
+                if let Err(p) = r3 {
+                    panic = Some(p);
+                    break;
+                }
+            }
             idle = 0;
         }
         step += 1;
